@@ -115,7 +115,7 @@ class LawWorld(World):
 
     # ------------------------------------------------------------------
     def gen_op(self, rng, frng):
-        w = {"write": 5, "bad_write": 0.8, "scribble": 0.8 if any(isinstance(v, list) for k, v in self.p.items() if k in SCALARS[self.kind]) else 0, "read_C": 3, "read_S": 2, "sqrt": 1.5, "walpole": 0.7, "set_C": 1.5 if self.kind == "Anisotropic" else 0,
+        w = {"write": 5, "bad_write": 0.8, "rewrite_inplace": 1.0 if getattr(self, "user_arrays", None) else 0, "scribble": 0.8 if any(isinstance(v, list) for k, v in self.p.items() if k in SCALARS[self.kind]) else 0, "read_C": 3, "read_S": 2, "sqrt": 1.5, "walpole": 0.7, "set_C": 1.5 if self.kind == "Anisotropic" else 0,
              "flag": 1.0, "observer_assemble": 1.0 if self.obs else 0}
         names = sorted(w)
         pr = np.array([w[k] for k in names], dtype=float)
@@ -141,6 +141,11 @@ class LawWorld(World):
                     op["val"] = float(np.round(rng.uniform(lo, hi), 4))
                 else:
                     op["field"] = {"form": form, "aseed": int(rng.integers(1 << 30)), "lo": lo, "hi": hi}
+        elif name == "rewrite_inplace":
+            # the user's own array, modified in place and assigned again (E_e[sel] *= 2; mat.E = E_e): a change
+            cands = [k for k in getattr(self, "user_arrays", {})]
+            op["name"] = cands[int(rng.integers(len(cands)))]
+            op["factor"] = float(np.round(rng.uniform(1.1, 1.9), 2))
         elif name == "scribble":
             # overwrite, in place, the array a parameter read returned (no assignment: not a parameter change)
             cands = [k for k, v in self.p.items() if k in SCALARS[self.kind] and isinstance(v, list)]
@@ -253,6 +258,11 @@ class LawWorld(World):
             with ctx.sut():
                 setattr(law, pn, val)
             self.p[pn] = val.tolist() if isinstance(val, np.ndarray) else val
+            ua = self.__dict__.setdefault("user_arrays", {})
+            if isinstance(val, np.ndarray):
+                ua[pn] = val  # the user keeps his array
+            else:
+                ua.pop(pn, None)
             if op.get("same"):
                 ctx.probe("equal_value_write")
             # The update flags are the mechanism, not the property: a write that leaves a flag down (an equal-value
@@ -267,6 +277,30 @@ class LawWorld(World):
             if "field" in op:
                 ctx.probe("field_parameter_" + op["field"]["form"])
             return "ok"
+
+        if name == "rewrite_inplace":
+            arr = getattr(self, "user_arrays", {}).get(op["name"])
+            if arr is None or not isinstance(self.p.get(op["name"]), list):
+                return "skip"
+            lo, hi = SCALARS[self.kind][op["name"]]
+            new_vals = np.clip(arr * op["factor"], lo, hi) if lo >= 0 else np.clip(arr * op["factor"], lo + 1e-3, hi - 1e-3)
+            if np.array_equal(new_vals, arr):
+                new_vals = np.clip(arr / op["factor"], lo, hi) if lo >= 0 else arr * 0.5
+            try:
+                with ctx.sut():
+                    for s in self.obs:
+                        s.Get_K_C_M_F()
+            except SutError:
+                return "skip"
+            arr[...] = new_vals  # in place: the law may hold a reference to this very array
+            with ctx.sut():
+                setattr(law, op["name"], arr)
+            self.p[op["name"]] = arr.tolist()
+            ctx.probe("array_modified_in_place_and_assigned_again")
+            C, _ = self._check_state("after assigning again an array that was modified in place (" + op["name"] + ")")
+            if C is not None and self.obs:
+                self._check_observers(range(len(self.obs)), "after assigning again an array that was modified in place")
+            return "ok" if C is not None else "exc:both"
 
         if name == "scribble":
             if not isinstance(self.p.get(op["name"]), list):
